@@ -257,7 +257,9 @@ func (w *w2World) Run(t *testing.T, sc *simrt.Scenario, cfg simrt.Config) simrt.
 		}
 		wg.Wait()
 		// quiescence, then one more read by a fresh client: the final state must be the model's
+		simrt.Calm()
 		time.Sleep(2 * time.Second)
+		simrt.Settle()
 		h := &w2HistOp{client: len(b.Clients), op: &w2Op{Kind: "read"}}
 		h.call = simrt.Rec("op.call", "read", "", int64(len(b.Clients)), 0, 0)
 		h.out.View, _ = w2View(p.APIConfigSnapshot())
